@@ -668,3 +668,31 @@ def replace_block_longer_than_callee(r):
         return False
     p, op, args, env = _ctx(r)
     return len(args[0]._impl) > len(args[1]._loopir_proc.body)
+
+
+# ---------------------------------------------------------------------------
+# C02 / C08
+
+
+def c02_callee_name_equals_variable(r):
+    """the backend emits a call `i(ctxt, ..., i)` where a variable of the same name is in scope"""
+    if r.get("kind") != "c_compile_error":
+        return False
+    return "is not a function or function pointer" in str(r.get("detail"))
+
+
+def c_mod_on_negative_numerator(r):
+    """`%` is emitted as C's remainder: a negative numerator gives a negative index"""
+    src = r.get("src") or ""
+    if "%" not in src:
+        return False
+    d = r.get("detail") or {}
+    return r.get("kind") in ("oob", "value") and bool(re.search(r"\([^()]*-[^()]*\)\s*%|-\w+\s*%", src))
+
+
+def c02_constant_division_folded_as_float(r):
+    return r.get("kind") == "c_compile_error" and "array subscript is not an integer" in str(r.get("detail"))
+
+
+def c02_scalar_in_stack_memory(r):
+    return r.get("kind") == "c_compile_error" and "needs an explicit size or an initializer" in str(r.get("detail"))
